@@ -14,7 +14,7 @@ import cbor2
 import seclib as S
 
 KINDS_QUICK = 2
-KINDS_THOROUGH = 14
+KINDS_THOROUGH = 10
 
 
 def _to_cbor2(v):
@@ -181,10 +181,14 @@ def run_case(chk, case, ib, accept, rcvs, keyhex=None):
     orc = dict(exp)
     orc.update({(s, t): o for (s, t, o) in seen})
 
-    # --- model
+    # --- model request (answered in one batch per base bundle)
     req = S.chain_request(vib, accept, [(s, t, o) for (s, t), o in orc.items()], plain=case.plain,
                           extract_bad=case.extract_bad)
-    ans = chk.driver([req])[0]
+    return dict(case=case, out=out, vib=vib, req=req, replay=replay, accept=accept)
+
+
+def judge(chk, rec, ans):
+    case, out, vib, req, replay, accept = rec['case'], rec['out'], rec['vib'], rec['req'], rec['replay'], rec['accept']
     impl = dict(delivered=out.delivered, deleted=bool(out.actions and 'delete' in out.actions),
                 reason=(int(out.reason) if isinstance(out.reason, int) else (None if out.reason is None else 'str')))
     model = dict(delivered=ans.get('delivered'), deleted=ans.get('deleted'), reason=ans.get('reason'))
@@ -260,6 +264,11 @@ def counterexamples(chk):
     w16 = {'op': 'sec.chain', 'accept': False, 'blocks': [
         {'type': 11, 'num': 2, 'asb': dict(good, targets=[9])}, {'type': 1, 'num': 1}], 'orc': []}
     w22 = {'op': 'sec.chain', 'accept': False, 'blocks': [{'type': 11, 'num': 2, 'asb': None}, {'type': 1, 'num': 1}], 'orc': []}
+    w29 = {'op': 'sec.chain', 'accept': False, 'blocks': [
+        {'type': 11, 'num': 2, 'asb': dict(good, paramIds=[], hasParams=False)}, {'type': 1, 'num': 1}], 'orc': [[2, 1, 'ok']]}
+    o29 = chk.driver([w29, dict(w29, quirks='fixed')])
+    if o29[0].get('delivered') or not o29[1].get('delivered'):
+        chk.corr_break('model: parameter-less BIB witness (D29) behaves unexpectedly', o29)
     outs = chk.driver([w15, w16, w22] + [dict(w, quirks='fixed') for w in (w15, w16, w22)])
     for name, o in zip(('D15', 'D16', 'D22'), outs[:3]):
         if o.get('secDeleted'):
@@ -297,8 +306,10 @@ def run(chk):
             ib, _payload = S.plain_bundle(rng, chk.tier, payload=b'\x00', extra=1)
         for accept in (False, True):
             rcvs = receivers(keys, kmac, kenc, rng, accept)
-            for case in make_cases(chk, rng, ib, kmac, kenc, accept):
-                run_case(chk, case, ib, accept, rcvs, keyhex=dict(mac=kmac.hex(), enc=kenc.hex()))
+            recs = [run_case(chk, case, ib, accept, rcvs, keyhex=dict(mac=kmac.hex(), enc=kenc.hex()))
+                    for case in make_cases(chk, rng, ib, kmac, kenc, accept)]
+            for rec, ans in zip(recs, chk.driver([r['req'] for r in recs])):
+                judge(chk, rec, ans)
 
 
 def _keys_from(keyhex, variant):
